@@ -39,6 +39,18 @@ def _row_array(M):
         return M, 'array', _exc_name(e)
 
 
+def _row_container(dt):
+    """perc2okta on the whole percentages 0..100 held in an array of the given dtype (the values are what counts, not
+    the width or kind of the container): the row n = 0..100 of M = 100."""
+    import numpy as np
+    wmo = _wmo()
+    try:
+        out = wmo.perc2okta(np.arange(0, 101).astype(dt))
+        return 100, f'array[{dt}]', [int(k) for k in out]
+    except Exception as e:
+        return 100, f'array[{dt}]', _exc_name(e)
+
+
 def _row_scalar(M):
     import numpy as np
     wmo = _wmo()
@@ -159,6 +171,7 @@ def run(chk):
     with Pool(16) as pool:
         rows = pool.map(_row_array, range(1, Mmax + 1), chunksize=8)
         rows += pool.map(_row_scalar, range(1, Mscalar + 1), chunksize=4)
+        rows += [_row_container(dt) for dt in ('int8', 'uint8', 'int16', 'uint16', 'int32', 'int64', 'float32', 'float64')]
         _check_rows(chk, rows)
         # heights
         if quick:
